@@ -28,7 +28,7 @@ func init() {
 		Scenarios: c06Scenarios,
 		Rule: "retained groups of 15 / 16 / 17 / 32 members; every other later message carries its bytes inside a Grouped AVP of three members (a decode that builds member lists of its own); a retained message followed by a second message (the same wire image, or one with member-less groups) that is then edited in every ordinary way (a member added to each of its groups at every depth, a top-level AVP added, header changed): the retained one must not change; retained AVPs of an application-defined data type whose name is registered without a decoder (kept, if at all, as a copy); a message read while a 1.1 / 4 / 70 KB message is in flight on another connection (suspended at its header/body border, 8 and 600 bytes into the body), then retained across later reads; retained groups nested 40 / 64 / 65 / 100 deep; histories: a retained first message M1 (one per slice-backed representation: Address IPv4 / IPv6 / other family, undefined AVP, IPv4, IPv6, OctetString, UTF8String, a grouped AVP containing each, nested groups; and one AVP of every declared type carrying payloads of 15 unexpected lengths / shapes, i.e. the lenient decode paths) followed by every sequence of <=3 further reads drawn from {same size with other content, larger but pooled, larger than the 1 KiB pooled buffer} x {same reader, another reader}; the pool shim reuses buffers deterministically (LIFO), so nothing depends on sync.Pool's luck; the same with the exported tuning variable diam.MessageBufferLength raised to 4096 and retained payloads of 1000..3000 bytes. schedules: two connections served by the real reader loops, a handler that retains the first message of connection A, a concurrent writer; Pool.Get is an explored choice (any pooled buffer, or a fresh one); every schedule up to preemption bound 2 (thorough: 4 on all fifteen retained shapes). Oracle: Serialize() bytes and String() of M1 taken when the reader returned it equal those taken at quiescence. Plus: M1 is unmarshalled into a struct and two later messages of the same shape are unmarshalled into the SAME struct value (field shapes *diam.AVP, diam.AVP, []*diam.AVP, the datatype, a pointer to it; 8 data types).",
 		Assume: []string{"data-race freedom between visible operations (audited separately with -race)", "sync.Pool is modelled as: Get returns any previously Put object or allocates"},
-		QuickBudget: 100, ThoroughBudget: 1500,
+		QuickBudget: 100, ThoroughBudget: 2400,
 	}
 }
 
